@@ -14,7 +14,8 @@ def goodFacts : Facts02 :=
     leafKindFault := true, boolCoerced := true, utf8Fault := true, jsonNullDateOk := true, intFromFloat := true,
     nativeKindFault := true, binKindFault := true, rawBytesKindFault := true, nestedArrayOk := true, parseErrorsFault := true, binTextValidated := true, missingBodyFault := true,
     guardPathLocal := true, fileFormValidated := true,
-    mpBytesTable := SpyneModel.Generated.facts02.mpBytesTable, mpBoolPassThrough := [], tableUtf8Fault := true }
+    mpBytesTable := SpyneModel.Generated.facts02.mpBytesTable, mpBoolPassThrough := [], tableUtf8Fault := true,
+    bytesJoinBeforeEncode := true, retagSubclassChecked := true }
 
 def jText (j : Json) : Text :=
   match j with
